@@ -315,6 +315,8 @@ class ArgExtremum(Family):
         for l in ls:
             rows.append([((v + i) * 7) % 5 - 2 for i in range(l)])
             v += l
+        if sum(ls) == 0:
+            return None       # C05 speaks about argmax / argmin "for every non-empty row"; maximum / minimum have no identity for an all-empty array
         ra = RaggedArray(np.array([x for r in rows for x in r], dtype=np.int64), ls)
         for nm, fn in (("argmax", np.argmax), ("argmin", np.argmin)):
             try:
@@ -322,7 +324,9 @@ class ArgExtremum(Family):
             except Exception as e:
                 return {"msg": f"{nm} on rows {rows} raised {type(e).__name__}: {e}", "sig": "raised:_arg_extremum"}
             for r, row in enumerate(rows):
-                exp = int(fn(np.array(row))) if row else 0
+                if not row:
+                    continue
+                exp = int(fn(np.array(row)))
                 if int(got[r]) != exp:
                     return {"msg": f"{nm} on rows {rows}: row {r} gives {got[r]}, numpy {exp}", "sig": "wrong:_arg_extremum"}
 
